@@ -88,58 +88,18 @@ Section LexEq.
 
         let pre := has_length_prefix s in
         let s0 := if pre then match skip_lc s with _ :: t => t | [] => [] end else s in
-        match skip_lc s0 with
-        | [] => Err                                             
-        | c :: s1 =>
-            let* (p, r) :=
-              (if is_name_char c then
-                 let (n, r) := lex_name (length s1) s1 in
-                 match type_of_id (c :: n) with
-                 | Some t => Ok (mkParam (c :: n) t, r)
-                 | None => Err                                  
-                 end
-               else match special_of_char c with
-                    | Some sp => Ok (mkParam [c] (PtSpecial sp), s1)
-                    | None => Err                               
-                    end) in
-            
-            let r0 := skip_lc r in
-            let colon := match r0 with c :: _ => c =? 58 | [] => false end in
-            let r1 := if colon then match r0 with _ :: t => skip_lc t | [] => [] end else r0 in
-            let* (m, r2) :=
-              (match r1 with
-               | [] => if colon then Err else Ok (MNone, r1)
-               | sym :: r1' =>
-                   if (sym =? 43) || (sym =? 45) || (sym =? 61) || (sym =? 63) then
-                     let a := if sym =? 43 then SaAlter else if sym =? 45 then SaDefault
-                              else if sym =? 61 then SaAssign else SaError in
-                     let* (w, r') := lex_units inner f cx DBrace r1' in
-                     Ok (MSwitch a (if colon then ScUnsetOrEmpty else ScUnset)
-                                 (match cx with CWord => tilde_front w | CText => w end), r')
-                   else if (sym =? 35) || (sym =? 37) then
-                     if colon then Err
-                     else
-                       let side := if sym =? 35 then TsPrefix else TsSuffix in
-                       let (len, r1'') :=
-                         match skip_lc r1' with
-                         | c' :: t => if c' =? sym then (TlLongest, t) else (TlShortest, c' :: t)
-                         | [] => (TlShortest, [])
-                         end in
-                       let* (w, r') := lex_units inner f CWord DBrace r1'' in
-                       Ok (MTrim side len (tilde_front w), r')
-                   else if colon then Err else Ok (MNone, r1)
-               end) in
-            match skip_lc r2 with
-            | c' :: r3 =>
-                if c' =? c_rbrace then
-                  match pre, m with
-                  | true, MNone => Ok (BracedParam p MLength, r3)
-                  | true, _ => Err                              
-                  | false, _ => Ok (BracedParam p m, r3)
-                  end
-                else Err                                        
-            | [] => Err
-            end
+        let* (p, r) := lex_param s0 in
+        let* (m, r2) := lex_suffix (fun cx' s' => lex_units inner f cx' DBrace s') cx r in
+        match skip_lc r2 with
+        | c' :: r3 =>
+            if c' =? c_rbrace then
+              match pre, m with
+              | true, MNone => Ok (BracedParam p MLength, r3)
+              | true, _ => Err                              
+              | false, _ => Ok (BracedParam p m, r3)
+              end
+            else Err                                        
+        | [] => Err
         end.
   Proof. reflexivity. Qed.
 
